@@ -10,6 +10,7 @@ import (
 	sdk "github.com/cosmos/cosmos-sdk/types"
 	"github.com/cosmos/cosmos-sdk/types/module"
 	authtypes "github.com/cosmos/cosmos-sdk/x/auth/types"
+	vestingtypes "github.com/cosmos/cosmos-sdk/x/auth/vesting/types"
 	"github.com/cosmos/cosmos-sdk/x/authz"
 	banktypes "github.com/cosmos/cosmos-sdk/x/bank/types"
 	"github.com/medibloc/panacea-core/v2/app"
@@ -59,6 +60,18 @@ func RequiredSigners(msg sdk.Msg) []string {
 	case *pnfttypes.MsgBurnPNFTRequest:
 		return []string{x.Burner}
 	case *banktypes.MsgSend:
+		return []string{x.FromAddress}
+	case *banktypes.MsgMultiSend:
+		var out []string
+		for _, in := range x.Inputs {
+			out = append(out, in.Address)
+		}
+		return out
+	case *vestingtypes.MsgCreateVestingAccount:
+		return []string{x.FromAddress}
+	case *vestingtypes.MsgCreatePermanentLockedAccount:
+		return []string{x.FromAddress}
+	case *vestingtypes.MsgCreatePeriodicVestingAccount:
 		return []string{x.FromAddress}
 	case *authz.MsgGrant:
 		return []string{x.Granter}
